@@ -15,7 +15,7 @@ PROPERTY_UNITS = {
     'C09': ['u_env', 'u_exp2', 'u_proc', 'u_read'],
     'C02': ['u_fd', 'u_wait', 'u_plan', 'u_blt'],
     'C04': ['u_fd', 'u_plan', 'u_bfd', 'u_blt'],
-    'C08': ['u_fd', 'u_bfd'],
+    'C08': ['u_fd', 'u_bfd', 'u_blt'],
     'C17': ['u_exp2', 'u_env'],
     'C19': ['u_calc', 'u_fd'],
 }
